@@ -97,7 +97,19 @@ pub fn check_order(h: &History, rep: &mut EpReport) -> OrderStats {
             if seen.insert((d.sub.clone(), d.tag.clone()), ()).is_some() {
                 continue; // a redelivery
             }
-            let Some((_, id, pub_op, pub_idx)) = id_of.get(&d.tag) else { continue };
+            // the id the topic issued: the one its Publish response carried; for a publish that was
+            // answered with an error (or never answered) the id the delivery itself carries
+            let from_delivery;
+            let (id, pub_op, pub_idx) = match id_of.get(&d.tag) {
+                Some((_, id, pub_op, pub_idx)) => (id, pub_op, pub_idx),
+                None => match h.published.get(&d.tag) {
+                    Some(pr) if !d.msg_id.is_empty() => {
+                        from_delivery = (d.msg_id.clone(), pr.op_id, pr.idx);
+                        (&from_delivery.0, &from_delivery.1, &from_delivery.2)
+                    }
+                    _ => continue,
+                },
+            };
             let o = h.ops.get(&d.op_id);
             let is_pull = o.map(|o| matches!(o.op, Op::Pull { .. })).unwrap_or(false);
             firsts.entry(d.sub.clone()).or_default().push(First {
@@ -156,6 +168,12 @@ pub fn check_order(h: &History, rep: &mut EpReport) -> OrderStats {
         // that pull was even called.
         let mut sorted: Vec<&First> = fs.iter().collect();
         sorted.sort_by(|x, y| if id_lt(&x.id, &y.id) { std::cmp::Ordering::Less } else if id_lt(&y.id, &x.id) { std::cmp::Ordering::Greater } else { std::cmp::Ordering::Equal });
+        // one id, two messages: the topic issued the same id twice
+        for w in sorted.windows(2) {
+            if w[0].id == w[1].id && w[0].tag != w[1].tag {
+                rep.viol("C08", "C08:ids-not-increasing:id-issued-twice", format!("{}: {} and {} were both delivered with message id {}", short(sub), w[0].tag, w[1].tag, w[0].id));
+            }
+        }
         let mut latest_vt: Option<&First> = None;
         let mut latest_call: Option<&First> = None;
         for b in sorted {
